@@ -117,6 +117,10 @@ def check_case(case):
 
     # the calls are a per-row function: the rows may arrive in any order (seeded change C02j looked the reference copies
     # up once per chromosome block, assuming each chromosome's rows are contiguous)
+    # one table in six has no chromosome-X row (the Y label must not hinge on an X row being present)
+    if gen.pick(case, "noX", 6) == 0:
+        keep = [i for i, r in enumerate(recs) if r[0].replace("chr", "") != "X"]
+        recs, meta = [recs[i] for i in keep], [meta[i] for i in keep]
     order = gen.row_order(case, [r[0] for r in recs])
     recs, meta = [recs[i] for i in order], [meta[i] for i in order]
     cols = ["chromosome", "start", "end", "gene", "log2", "baf"]
